@@ -271,6 +271,13 @@ impl<R: IntoRole + Default> Parameters<R> {
         id.belong_to(role)?;
         let value = value.into();
         id.validate(&value)?;
+        // RFC 9000 section 18.2: a server MUST NOT include a zero-length connection ID in
+        // preferred_address; a client MUST treat that as TRANSPORT_PARAMETER_ERROR.
+        if let ParameterValue::PreferredAddress(addr) = &value {
+            if addr.connection_id().is_empty() {
+                return Err(Error::OutOfBounds(id, 0, 1..=20));
+            }
+        }
         self.map.insert(id, value);
         Ok(())
     }
